@@ -93,6 +93,7 @@ type jop struct {
 	Paint      []jpaint  `json:"paint,omitempty"`      // full content of the block (runs with label 0 included)
 	LabelLists []jlabels `json:"labellists,omitempty"` // POST labels
 	LowMem     bool      `json:"lowmem,omitempty"`     // reload with inmemory=false (resyncLowMemory)
+	Check      bool      `json:"check,omitempty"`      // reload with check=true (write_denorms_with_check when in memory)
 	Force      bool      `json:"force,omitempty"`      // re-emit every persistent query after this op
 	Queries    []jquery  `json:"queries,omitempty"`
 }
@@ -679,17 +680,99 @@ func (h *hist) execReload(op *jop) int {
 	if cls := classOf(dv.Post(h.url("ann", "blocks"), []byte(sb.String()))); cls != 0 {
 		return cls
 	}
-	return h.reloadAll(op.LowMem)
+	return h.reloadAll(op.LowMem, op.Check)
+}
+
+// awaitChecked: POST reload?check=true (in memory) and wait for it.  The checked reload deletes nothing
+// first, so the sentinel label of reloadAll would stay; instead the label index entry of one body that
+// holds elements is emptied through POST labels (a raw Put) and the reload has started once the entry
+// is back.  A body whose entry already equals the block store is preferred, so that the entries the
+// preceding block ingest left stale are judged by the reload's own comparison.
+func (h *hist) awaitChecked() int {
+	bl := h.getBlocks(h.url("ann", "all-elements"))
+	if h.dead {
+		return 2
+	}
+	byBody := map[uint64][]elem{}
+	for _, b := range bl {
+		for _, e := range b.Elems {
+			if l := h.bodyAt(e.Pos); l != 0 {
+				e.Rels = nil
+				byBody[l] = append(byBody[l], e)
+			}
+		}
+	}
+	var ls []uint64
+	for l := range byBody {
+		ls = append(ls, l)
+	}
+	sort.Slice(ls, func(i, j int) bool { return ls[i] < ls[j] })
+	var pick uint64
+	for _, l := range ls {
+		es := byBody[l]
+		sort.Slice(es, func(i, j int) bool { return posLess(es[i].Pos, es[j].Pos) })
+		cur := stripRels(h.getElems(h.url("ann", "label/"+u(l))))
+		if h.dead {
+			return 2
+		}
+		if pick == 0 {
+			pick = l
+		}
+		if coqElems(cur) == coqElems(es) {
+			pick = l
+			break
+		}
+	}
+	if pick != 0 {
+		if classOf(dv.Post(h.url("ann", "labels"), []byte(`{"`+u(pick)+`":"[]"}`))) != 0 {
+			return 2
+		}
+	}
+	if classOf(dv.Post(h.url("ann", "reload?check=true"), nil)) != 0 {
+		return 2
+	}
+	if pick != 0 {
+		if !poll("checked annotation reload to start", func() bool {
+			r := dv.Get(h.url("ann", "label/"+u(pick)))
+			s := strings.TrimSpace(string(r.Body))
+			return r.Status == 200 && s != "[]" && s != "null" && s != ""
+		}) {
+			return 2
+		}
+	} else {
+		time.Sleep(300 * time.Millisecond) // no labelled element: nothing observable marks the start
+	}
+	if !poll("checked annotation reload to end", func() bool {
+		return dv.Post(h.url("ann", "elements?kafkalog=off"), []byte("[]")).Status == 200
+	}) {
+		return 2
+	}
+	return 0
 }
 
 // reloadAll: annotation reload (in memory, or the low-memory variant) and labelsz reload, each awaited
-func (h *hist) reloadAll(lowMem bool) int {
+func (h *hist) reloadAll(lowMem, check bool) int {
+	if check && !lowMem {
+		if cls := h.awaitChecked(); cls != 0 {
+			return cls
+		}
+		h.settle("sz")
+		if !h.szReload(sentinelNote, 1) || !h.szReload(`"[]"`, 0) {
+			return 2
+		}
+		return 0
+	}
 	if classOf(dv.Post(h.url("ann", "labels"), []byte(`{"`+sentinel1+`":`+sentinelNote+`}`))) != 0 {
 		return 2
 	}
 	ru := "reload"
 	if lowMem {
 		ru = "reload?inmemory=false"
+		if check {
+			ru += "&check=true" // the low-memory path takes no notice of check
+		}
+	} else if check {
+		ru = "reload?check=true"
 	}
 	if classOf(dv.Post(h.url("ann", ru), nil)) != 0 {
 		return 2
@@ -1084,6 +1167,70 @@ func (g *gstate) vary(e elem) (elem, bool) {
 type flags struct {
 	kindChange, dropCarry, crossBlock, sameBody, missing, link, partner bool
 	hostile                                                             string // ill-formed request that must be rejected with 400 and change nothing
+	behind                                                              string // kinds of change a reload op's block ingest makes behind the tag/label indexes
+}
+
+// varyBehind: one narrow change of e as a block ingest can make it behind the indexes: the element gains
+// a tag and keeps its old ones, loses one tag, changes only its Kind, or only its Prop ("" when the
+// drawn change is not possible for e).
+func (g *gstate) varyBehind(e elem) (elem, string) {
+	n := cp(e)
+	switch g.r.Intn(4) {
+	case 0:
+		var cand []int
+		for t := 1; t <= 4; t++ {
+			if !hasTag(e, t) {
+				cand = append(cand, t)
+			}
+		}
+		if len(cand) == 0 {
+			return n, ""
+		}
+		t := cand[g.r.Intn(len(cand))]
+		if g.r.Bool() {
+			n.Tags = append(n.Tags, t)
+		} else {
+			n.Tags = append([]int{t}, n.Tags...)
+		}
+		return n, "gains a tag"
+	case 1:
+		if len(e.Tags) == 0 {
+			return n, ""
+		}
+		n.Tags = withoutTag(n.Tags, e.Tags[g.r.Intn(len(e.Tags))])
+		return n, "loses a tag"
+	case 2:
+		n.Kind = (e.Kind + 1 + g.r.Intn(4)) % 5
+		return n, "changes Kind"
+	default:
+		n.Prop = (e.Prop + 1 + g.r.Intn(9)) % 10
+		return n, "changes Prop"
+	}
+}
+
+// keepsKeys: every tag and every body that has an element in before has one in after.  The checked
+// reload (check=true) rewrites the entries of the tags and bodies found in the block store and does
+// not look at other entries, so only then is it expected to leave exact views.
+func (g *gstate) keepsKeys(before, after []elem) bool {
+	tags := map[int]bool{}
+	bodies := map[uint64]bool{}
+	for _, e := range after {
+		for _, t := range e.Tags {
+			tags[t] = true
+		}
+		bodies[g.h.bodyAt(e.Pos)] = true
+	}
+	for _, e := range before {
+		for _, t := range e.Tags {
+			if !tags[t] {
+				return false
+			}
+		}
+		if l := g.h.bodyAt(e.Pos); l != 0 && !bodies[l] {
+			return false
+		}
+	}
+	return true
 }
 
 // genHostile: requests the server must reject before writing anything (C13-7-fix, C13-8-fix),
@@ -1416,8 +1563,15 @@ func (g *gstate) genMove(f *flags) *jop {
 	return &jop{Op: "move", P: from, Q: to}
 }
 
-func (g *gstate) genReload() *jop {
+func (g *gstate) genReload(f *flags, checked bool) *jop {
 	op := &jop{Op: "reload", LowMem: g.r.Bool()}
+	if checked {
+		op.LowMem = false
+		op.Check = true
+	} else if g.r.Chance(0.3) {
+		op.Check = true
+	}
+	behind := map[string]bool{}
 	var blocks []pos
 	for _, e := range g.els {
 		b := blockOf(e.Pos)
@@ -1461,7 +1615,17 @@ func (g *gstate) genReload() *jop {
 				continue
 			}
 			n := cp(e)
-			if g.r.Chance(0.5) {
+			if checked || op.Check {
+				switch w := g.r.Intn(10); {
+				case w < 5:
+					if m, what := g.varyBehind(e); what != "" {
+						n = m
+						behind[what] = true
+					}
+				case w < 7:
+					n, _ = g.vary(e)
+				}
+			} else if g.r.Chance(0.5) {
 				n, _ = g.vary(e)
 			}
 			jb.Elems = append(jb.Elems, n)
@@ -1471,8 +1635,40 @@ func (g *gstate) genReload() *jop {
 				jb.Elems = append(jb.Elems, g.newElem(p))
 			}
 		}
+		if len(jb.Elems) > 1 && g.r.Bool() { // the elements move within the block's list
+			sh := make([]elem, len(jb.Elems))
+			for i, j := range g.shuffled(len(jb.Elems)) {
+				sh[i] = jb.Elems[j]
+			}
+			jb.Elems = sh
+			behind["moves within the block list"] = true
+		}
 		op.Blocks = append(op.Blocks, jb)
 	}
+	if op.Check && !op.LowMem {
+		var after []elem
+		for _, e := range g.els {
+			hit := false
+			for _, b := range op.Blocks {
+				hit = hit || blockOf(e.Pos) == b.B
+			}
+			if !hit {
+				after = append(after, e)
+			}
+		}
+		for _, b := range op.Blocks {
+			after = append(after, b.Elems...)
+		}
+		if !g.keepsKeys(g.els, after) {
+			op.Check = false // a tag or a body loses its last element: the unchecked reload
+		}
+	}
+	var bs []string
+	for k := range behind {
+		bs = append(bs, k)
+	}
+	sort.Strings(bs)
+	f.behind = strings.Join(bs, ", ")
 	return op
 }
 
@@ -1728,7 +1924,13 @@ func (g *gstate) genQuery() jquery {
 func (g *gstate) genOp(f *flags) *jop {
 	for {
 		var op *jop
-		w := g.r.Intn(124)
+		w := g.r.Intn(130)
+		if w >= 124 {
+			if len(g.els) > 0 {
+				return g.genReload(f, true)
+			}
+			continue
+		}
 		if w >= 121 {
 			if op = g.genLabels(); op != nil {
 				return op
@@ -1766,7 +1968,7 @@ func (g *gstate) genOp(f *flags) *jop {
 		case w < 77:
 			op = g.genMove(f)
 		case w < 82:
-			op = g.genReload()
+			op = g.genReload(f, false)
 		case w < 90:
 			op = g.genMerge()
 		case w < 97:
@@ -1947,7 +2149,7 @@ func runBig(run *lib.Run, r *lib.Rand) {
 	}
 	for variant, lowMem := range []bool{true, false} {
 		v := (variant + 1) * 1000
-		if h.reloadAll(lowMem) != 0 {
+		if h.reloadAll(lowMem, false) != 0 {
 			fact(1, v, 0, 1, 0, 0)
 			continue
 		}
@@ -2101,6 +2303,15 @@ func countOp(run *lib.Run, op *jop, cls int, f flags) {
 	if op.Op == "reload" && op.LowMem {
 		run.Count("reload:low-memory variant")
 	}
+	if op.Op == "reload" && op.Check && !op.LowMem {
+		run.Count("reload:checked in-memory variant (check=true)")
+	}
+	if op.Op == "reload" && op.Check && op.LowMem {
+		run.Count("reload:check=true with inmemory=false")
+	}
+	if f.behind != "" {
+		run.Count("reload after block ingest behind the indexes: " + f.behind)
+	}
 	if f.hostile != "" {
 		run.Count("hostile: " + f.hostile)
 		if (cls == 1) != (f.hostile != "move with source = destination (no-op)") {
@@ -2158,6 +2369,13 @@ func runRandom(run *lib.Run, r *lib.Rand, nops int) {
 func corpus() []jcase {
 	pt := []jpaint{{-16, -1, 5}, {0, 7, 1}, {8, 15, 2}, {16, 31, 3}}
 	all := pos{-4, -4, -4}
+	A0 := elem{Pos: pos{2, 1, 1}, Kind: 1, Tags: []int{1}}
+	B0 := elem{Pos: pos{5, 2, 2}, Kind: 2, Tags: []int{1, 2}}
+	C0 := elem{Pos: pos{9, 1, 1}, Kind: 1}
+	D0 := elem{Pos: pos{12, 3, 3}, Kind: 3, Tags: []int{2}}
+	E0 := elem{Pos: pos{20, 1, 1}, Kind: 2, Tags: []int{3}, Prop: 2}
+	F0 := elem{Pos: pos{25, 4, 4}, Kind: 4, Tags: []int{3, 1}}
+	G0 := elem{Pos: pos{-3, 1, 1}, Kind: 1, Tags: []int{2}}
 	return []jcase{
 		{Paint0: pt, Ops: []jop{
 			{Op: "post", Elems: []elem{{Pos: pos{9, 1, 1}, Kind: 1, Tags: []int{1}}}},
@@ -2245,6 +2463,30 @@ func corpus() []jcase {
 			{Op: "reload", LowMem: true, Force: true},
 			{Op: "split", Target: 5, P: pos{-16, 0, 0}, Q: pos{-16, 0, 0}, Force: true, Queries: []jquery{{Q: "top", I: 5, N: 6}}}, // none
 			{Op: "reload", Force: true},
+		}},
+		// (viii) block ingest that changes elements behind the tag/label indexes, one narrow change at a time,
+		// each followed by a reload (check=true in memory, check=true with inmemory=false, plain, low
+		// memory): an element gains a tag and keeps its old ones (with and without old tags), loses one of
+		// two tags, changes only Kind, only Prop, the block list is reordered; every tag and body keeps an
+		// element throughout, so the checked reload too must leave exact views
+		{Paint0: pt, Ops: []jop{
+			{Op: "post", Elems: []elem{A0, B0, C0, D0, E0, F0, G0}},
+			{Op: "reload", Check: true, Force: true, Blocks: []jblock{{B: pos{0, 0, 0}, Elems: []elem{
+				{Pos: pos{2, 1, 1}, Kind: 1, Tags: []int{1, 3}}, B0, C0, D0}}}},
+			{Op: "reload", Check: true, Force: true, Blocks: []jblock{{B: pos{0, 0, 0}, Elems: []elem{
+				{Pos: pos{2, 1, 1}, Kind: 1, Tags: []int{1, 3}}, B0, {Pos: pos{9, 1, 1}, Kind: 1, Tags: []int{4}}, D0}}}},
+			{Op: "reload", Check: true, Force: true, Blocks: []jblock{{B: pos{0, 0, 0}, Elems: []elem{
+				{Pos: pos{2, 1, 1}, Kind: 1, Tags: []int{1, 3}}, {Pos: pos{5, 2, 2}, Kind: 2, Tags: []int{1}}, {Pos: pos{9, 1, 1}, Kind: 1, Tags: []int{4}}, D0}}}},
+			{Op: "reload", Check: true, Force: true, Blocks: []jblock{{B: pos{1, 0, 0}, Elems: []elem{
+				{Pos: pos{20, 1, 1}, Kind: 1, Tags: []int{3}, Prop: 2}, {Pos: pos{25, 4, 4}, Kind: 4, Tags: []int{3, 1}, Prop: 5}}}}},
+			{Op: "reload", Check: true, Force: true, Blocks: []jblock{{B: pos{0, 0, 0}, Elems: []elem{
+				D0, {Pos: pos{9, 1, 1}, Kind: 1, Tags: []int{4}}, {Pos: pos{5, 2, 2}, Kind: 2, Tags: []int{1}}, {Pos: pos{2, 1, 1}, Kind: 1, Tags: []int{1, 3}}}}}},
+			{Op: "reload", Check: true, LowMem: true, Force: true, Blocks: []jblock{{B: pos{1, 0, 0}, Elems: []elem{
+				{Pos: pos{20, 1, 1}, Kind: 1, Tags: []int{2, 3}, Prop: 2}, {Pos: pos{25, 4, 4}, Kind: 4, Tags: []int{3, 1}, Prop: 5}}}}},
+			{Op: "reload", Force: true, Blocks: []jblock{{B: pos{-1, 0, 0}, Elems: []elem{{Pos: pos{-3, 1, 1}, Kind: 1, Tags: []int{2, 4}}}}}},
+			{Op: "reload", LowMem: true, Force: true, Blocks: []jblock{{B: pos{-1, 0, 0}, Elems: []elem{{Pos: pos{-3, 1, 1}, Kind: 3, Tags: []int{4}}}}}},
+			{Op: "reload", Check: true, Force: true, Blocks: []jblock{{B: pos{-1, 0, 0}, Elems: []elem{{Pos: pos{-3, 1, 1}, Kind: 3, Tags: []int{4, 1}, Prop: 7}}}},
+				Queries: []jquery{{Q: "top", I: 5, N: 6}, {Q: "region", Off: all, Size: pos{40, 24, 24}}}},
 		}},
 	}
 }
